@@ -181,5 +181,5 @@ func runC03(r *ev.Run, thorough bool) {
 	r.Set("bound", map[string]any{"k_deviations": k12(thorough), "types": len(bind.Types)})
 }
 
-// placeholder until C18 is written
-var c18Prim = func(p *prim, v *rm.Value) *ev.Violation { return nil }
+// set by c17_c18.go
+var c18Prim func(p *prim, v *rm.Value) *ev.Violation
